@@ -376,14 +376,24 @@ def run(ctx):
     NF = 4096 if q else 16384
     NC = 64 if q else 360
     NNP = 300 if q else 1100
-    ctx.explore("factorize", factorize_tree(NF), body_factorize, shard_depth=1,
-                distinct_by_construction=True)
-    ctx.explore("perfect", sizes_tree(N, "perfect"), body_sizes("perfect"), shard_depth=1,
-                distinct_by_construction=True)
-    ctx.explore("imperfect", sizes_tree(N, "imperfect"), body_sizes("imperfect"), shard_depth=1,
-                distinct_by_construction=True)
-    ctx.explore("numpy-args", np_tree(NNP), body_np, shard_depth=3, distinct_by_construction=True)
-    ctx.explore("count", count_tree(NC), body_count, shard_depth=1, distinct_by_construction=True)
+    # one worker pool for all five families (level 0 = family name)
+    fam = {
+        "factorize": (factorize_tree(NF), body_factorize),
+        "perfect": (sizes_tree(N, "perfect"), body_sizes("perfect")),
+        "imperfect": (sizes_tree(N, "imperfect"), body_sizes("imperfect")),
+        "numpy-args": (np_tree(NNP), body_np),
+        "count": (count_tree(NC), body_count),
+    }
+
+    def tree(p):
+        if len(p) == 0:
+            return list(fam)
+        return fam[p[0]][0](p[1:])
+
+    def body(cfg):
+        return fam[cfg[0]][1](cfg[1:])
+
+    ctx.explore("all", tree, body, shard_depth=2, distinct_by_construction=True)
     ctx.bound(outer_max=N, inner="perfect: every divisor of outer; imperfect: every inner <= outer",
               coarseness=1, factorize_n_max=NF, count_n_max=NC, count_pattern_len_max=4,
               numpy_args_outer_max=NNP)
